@@ -28,6 +28,13 @@ Theorem C01_gaussian_vector xs deltas box : length xs = length box -> length del
 Proof. exact (gauss_vec_in_box xs deltas box). Qed.
 Print Assumptions C01_gaussian_vector.
 
+(* LHS / Sobol: lower + sample * (upper - lower).  For every box on which the decidable test scale_ok holds (the largest double
+   below 1 still lands inside; the harness evaluates it for every box it generates) EVERY sample in [0, 1) lands inside *)
+Theorem C01_lhs_sobol_scaling lo hi s : scale_ok lo hi = true -> fis_finite s = true -> fle (fzero false) s = true -> fle s pred_one = true ->
+  in_box1 (scale_gene lo hi s) lo hi = true.
+Proof. exact (scale_gene_in_box lo hi s). Qed.
+Print Assumptions C01_lhs_sobol_scaling.
+
 (* (b) history machine, every accepted event stream: whatever holds of every genome the objective was evaluated at (here: lying
    in the box) holds of every genome stored in any history and of every sprout seed — nothing is stored that was not evaluated *)
 Theorem C01_stored_genomes_were_evaluated (P : Z -> Prop) s : hreach s -> (forall d x v, In (d, x, v) (evlog s) -> P x) ->
@@ -39,5 +46,6 @@ Print Assumptions C01_stored_genomes_were_evaluated.
 Example C01_example :
   let lo := of_bits 0xBFB999999999999A in let hi := of_bits 0x3FC999999999999A in
   in_box1 (gauss_gene (of_bits 0x3FC999999999999A) (of_bits 0x3FD3333333333333) lo hi) lo hi = true /\
-  in_box1 (de_gene true (of_bits 0x3FE0000000000000) lo lo hi) lo hi = true.
+  in_box1 (de_gene true (of_bits 0x3FE0000000000000) lo lo hi) lo hi = true /\
+  scale_ok lo hi = true /\ in_box1 (scale_gene lo hi pred_one) lo hi = true.
 Proof. vm_compute. auto. Qed.
